@@ -107,5 +107,5 @@ Definition judge_c04 (c : c04case) : verdict :=
            | _, _ => Pass
            end
   | mk_c04chain links => judge_links 0 links
-  | mk_c04refuse w r c => if andb r c then Pass else SpecFail (100 + w)
+  | mk_c04refuse w r c => if andb r c then Pass else SpecFail (50 + Nat.modulo w 10)
   end.
